@@ -11,7 +11,7 @@ import uuid as uuidmod
 from . import snapshot
 
 
-def check(g, ir, probes=()):
+def check(g, ir, probes=(), reload=True):
     """-> list of (bucket, detail); empty = coherent"""
     out = []
 
@@ -115,6 +115,8 @@ def check(g, ir, probes=()):
         ir.save_protobuf_file(buf)
     except Exception as e:  # noqa
         bad("accepted-ir-cannot-be-saved:" + type(e).__name__, repr(e))
+        return out
+    if not reload:
         return out
     try:
         ir2 = g.IR.load_protobuf_file(io.BytesIO(buf.getvalue()))
